@@ -573,3 +573,107 @@ def resolve_single(func, expr, attrs=False, rounds: int = 5):
             break
         cur = nxt
     return cur
+
+
+def list_builder(func, name):
+    """Symbolic content of the list ``name`` as built by the top-level statements of ``func``: a list of segments
+    ``("item", text)``, ``("if", cond_text, segments)`` and ``("each", elt_text, iter_text)`` (the loop variable is
+    written ``_``) — whether it is built by a literal, ``+``/``+=``, a comprehension, ``append``/``extend`` or loops.
+    None when some statement touching the list is not understood."""
+
+    def rename(expr, var):
+        class R(ast.NodeTransformer):
+            def visit_Name(self, node):
+                return ast.copy_location(ast.Name(id="_", ctx=node.ctx), node) if node.id == var else node
+        return U(R().visit(copy.deepcopy(_strip(expr))))
+
+    def seq(e):
+        if isinstance(e, (ast.List, ast.Tuple)):
+            return [("item", U(x)) for x in e.elts]
+        if isinstance(e, ast.BinOp) and isinstance(e.op, ast.Add):
+            a, b = seq(e.left), seq(e.right)
+            return None if a is None or b is None else a + b
+        if isinstance(e, ast.IfExp):
+            a, b = seq(e.body), seq(e.orelse)
+            if a is None or b is None:
+                return None
+            out = []
+            if a:
+                out.append(("if", U(e.test), a))
+            if b:
+                out.append(("if", U(ast.UnaryOp(op=ast.Not(), operand=e.test)), b))
+            return out
+        if isinstance(e, (ast.ListComp, ast.GeneratorExp)) and len(e.generators) == 1 and isinstance(e.generators[0].target, ast.Name):
+            g = e.generators[0]
+            inner = [("each", rename(e.elt, g.target.id), U(g.iter))]
+            for c in g.ifs:
+                return None
+            return inner
+        if isinstance(e, ast.Call) and call_name(e) == "list" and len(e.args) == 1:
+            return seq(e.args[0])
+        return None
+
+    def touches(st):
+        return any(isinstance(n, ast.Name) and n.id == name for n in ast.walk(st))
+
+    def block(stmts, items):
+        for st in stmts:
+            if not touches(st):
+                continue
+            if isinstance(st, ast.Assign) and len(st.targets) == 1 and U(st.targets[0]) == name:
+                v = seq(st.value)
+                if v is None:
+                    return None
+                items[:] = v
+            elif isinstance(st, ast.AugAssign) and U(st.target) == name and isinstance(st.op, ast.Add):
+                v = seq(st.value)
+                if v is None:
+                    return None
+                items += v
+            elif isinstance(st, ast.Expr) and isinstance(st.value, ast.Call) and last_attr_(st.value.func) in ("append", "extend") and U(st.value.func.value) == name \
+                    and len(st.value.args) == 1:
+                if last_attr_(st.value.func) == "append":
+                    items.append(("item", U(st.value.args[0])))
+                else:
+                    v = seq(st.value.args[0])
+                    if v is None:
+                        return None
+                    items += v
+            elif isinstance(st, ast.If):
+                a, b = [], []
+                if block(st.body, a) is None or block(st.orelse, b) is None:
+                    return None
+                if a:
+                    items.append(("if", U(st.test), a))
+                if b:
+                    items.append(("if", U(ast.UnaryOp(op=ast.Not(), operand=st.test)), b))
+            elif isinstance(st, ast.For) and isinstance(st.target, ast.Name) and not st.orelse:
+                a = []
+                if block(st.body, a) is None or any(isinstance(n, (ast.Continue, ast.Break)) for n in ast.walk(st)):
+                    return None
+                for kind, *rest in a:
+                    if kind != "item":
+                        return None
+                    items.append(("each", rename(ast.parse(rest[0], mode="eval").body, st.target.id), U(st.iter)))
+            elif isinstance(st, (ast.For, ast.While, ast.With, ast.Try)) and not any(
+                    isinstance(n, ast.Name) and n.id == name and isinstance(n.ctx, ast.Store) for n in ast.walk(st)) and not any(
+                    isinstance(c, ast.Call) and isinstance(c.func, ast.Attribute) and U(c.func.value) == name and c.func.attr in ("append", "extend", "insert", "pop", "remove", "clear", "sort", "reverse")
+                    for c in ast.walk(st)):
+                continue  # only reads the list
+            elif isinstance(st, (ast.Return, ast.Expr, ast.Assign)):
+                # a read of the list (or something we do not model): reads are fine, anything else is not
+                if any(isinstance(n, ast.Name) and n.id == name and isinstance(n.ctx, (ast.Store, ast.Del)) for n in ast.walk(st)):
+                    return None
+                if any(isinstance(c, ast.Call) and isinstance(c.func, ast.Attribute) and U(c.func.value) == name and c.func.attr in ("insert", "pop", "remove", "clear", "sort", "reverse")
+                       for c in ast.walk(st)):
+                    return None
+            else:
+                return None
+        return items
+
+    out = []
+    return block(func.body, out)
+
+
+def last_attr_(f):
+    return f.attr if isinstance(f, ast.Attribute) else (f.id if isinstance(f, ast.Name) else "")
